@@ -145,6 +145,12 @@ type Machine struct {
 	flagBool      map[string]value
 	flagFuncs     []flagFunc
 	onces         map[string]bool
+	sched         *scheduler
+	trackShared   bool                       // C19: log accesses to heap objects reachable from package-level state
+	sharedAcc     map[interface{}]*globalAccess // keyed by *object / *mapObj
+	sharedName    map[interface{}]string
+	published     map[interface{}]bool // path-local objects stored into shared memory during this path
+	mapUndo       []mapUndoRec
 	syncDepth     int // > 0 while executing an atomic operation or the body of a sync.Once: accesses are synchronised by construction
 
 	methCache map[methKey]*ssa.Function
@@ -208,6 +214,149 @@ func (m *Machine) noteGlobalAccess(g *ssa.Global, write bool) {
 		a.written = true
 	}
 	a.locked = len(a.locks) > 0
+}
+
+type mapUndoRec struct {
+	mp    *mapObj
+	keys  []value
+	vals  []value
+	dead  []bool
+	index map[string]int
+	n     int
+}
+
+// saveMap snapshots a map created during package initialisation before its first write on a path.
+func (m *Machine) saveMap(mp *mapObj) {
+	for _, u := range m.mapUndo {
+		if u.mp == mp {
+			return
+		}
+	}
+	u := mapUndoRec{mp: mp, n: mp.n, index: map[string]int{}}
+	u.keys = append([]value{}, mp.keys...)
+	u.vals = append([]value{}, mp.vals...)
+	u.dead = append([]bool{}, mp.dead...)
+	for k, v := range mp.index {
+		u.index[k] = v
+	}
+	m.mapUndo = append(m.mapUndo, u)
+	// the live map continues on private copies of the slices
+	mp.keys = append([]value{}, mp.keys...)
+	mp.vals = append([]value{}, mp.vals...)
+	mp.dead = append([]bool{}, mp.dead...)
+	idx := map[string]int{}
+	for k, v := range mp.index {
+		idx[k] = v
+	}
+	mp.index = idx
+}
+
+// Shared heap (C19). Memory that more than one call can reach is (a) the package-level variables
+// themselves (noteGlobalAccess), (b) every heap object or map created during package initialisation,
+// and (c) every object a call stores into (a), (b) or (c) ("published"). Accesses to (b) and (c) go
+// through the same lockset refinement as (a), keyed by object identity.
+func (m *Machine) sharedObj(o *object) bool {
+	if o == nil || o.global != nil {
+		return false
+	}
+	return o.epoch == 0 || (m.published != nil && m.published[o])
+}
+
+func (m *Machine) sharedMap(mp *mapObj) bool {
+	return mp != nil && (mp.epoch == 0 || (m.published != nil && m.published[mp]))
+}
+
+func (m *Machine) noteSharedAccess(key interface{}, name func() string, write bool) {
+	if !m.trackShared || m.epoch == 0 || m.syncDepth > 0 {
+		return
+	}
+	a := m.sharedAcc[key]
+	if a == nil {
+		a = &globalAccess{locks: map[string]bool{}, locked: true}
+		for k := range m.heldLocks {
+			a.locks[k] = true
+		}
+		m.sharedAcc[key] = a
+		m.sharedName[key] = name()
+	} else {
+		for k := range a.locks {
+			if m.heldLocks[k] == 0 {
+				delete(a.locks, k)
+			}
+		}
+	}
+	a.n++
+	if write {
+		a.written = true
+	}
+	a.locked = len(a.locks) > 0
+}
+
+func (m *Machine) noteObjAccess(o *object, write bool, fr *frame) {
+	if !m.trackShared || !m.sharedObj(o) {
+		return
+	}
+	m.noteSharedAccess(o, func() string {
+		t := "object"
+		if o.typ != nil {
+			t = o.typ.String()
+		}
+		return t + " allocated at " + o.site + " (first access at " + fr.pos() + ")"
+	}, write)
+}
+
+func (m *Machine) noteMapAccess(mp *mapObj, write bool, fr *frame) {
+	if !m.trackShared || !m.sharedMap(mp) {
+		return
+	}
+	m.noteSharedAccess(mp, func() string { return fmt.Sprintf("map #%d (first access at %s)", mp.id, fr.pos()) }, write)
+}
+
+// publish marks everything reachable from v as shared: it has been stored into memory other calls can reach.
+func (m *Machine) publish(v value) {
+	if !m.trackShared {
+		return
+	}
+	switch v := v.(type) {
+	case pointer:
+		m.publishObj(v.obj)
+	case slice:
+		m.publishObj(v.obj)
+	case iface:
+		m.publish(v.v)
+	case structure:
+		for _, f := range v {
+			m.publish(f)
+		}
+	case array:
+		for _, f := range v {
+			m.publish(f)
+		}
+	case *mapObj:
+		if v != nil && v.epoch != 0 && !m.published[v] {
+			m.published[v] = true
+			for i := range v.keys {
+				if !v.dead[i] {
+					m.publish(v.keys[i])
+					m.publish(v.vals[i])
+				}
+			}
+		}
+	case *closure:
+		if v != nil {
+			for _, e := range v.env {
+				m.publish(e)
+			}
+		}
+	}
+}
+
+func (m *Machine) publishObj(o *object) {
+	if o == nil || o.epoch == 0 || o.global != nil || m.published[o] {
+		return
+	}
+	m.published[o] = true
+	m.publish(o.v)
 }
 
 func isRepoPkg(path string) bool {
@@ -724,6 +873,12 @@ func (m *Machine) resetPathState() {
 	m.flagStr, m.flagBool, m.flagFuncs = nil, nil, nil
 	m.onces = nil
 	m.syncDepth = 0
+	m.sched = nil
+	m.trackShared = false
+	m.sharedAcc = nil
+	m.sharedName = nil
+	m.published = nil
+	m.mapUndo = nil
 	m.reverseMaps = m.ex.opts.ReverseMaps
 }
 
@@ -807,6 +962,10 @@ func (m *Machine) runPath(item workItem) (out Outcome) {
 		// undo writes to initialisation-time objects
 		for i := len(m.undo) - 1; i >= 0; i-- {
 			*m.undo[i].c = m.undo[i].old
+		}
+		for i := len(m.mapUndo) - 1; i >= 0; i-- {
+			u := m.mapUndo[i]
+			u.mp.keys, u.mp.vals, u.mp.dead, u.mp.index, u.mp.n = u.keys, u.vals, u.dead, u.index, u.n
 		}
 		for _, o := range m.frozenObjs {
 			o.frozen = false
